@@ -40,6 +40,14 @@ def gen_query(w, rng, s, g):
     elif op == 'q_shortest':
         s.update(a=w.pick_node(rng, g), z=w.pick_node(rng, g),
                  rel=rng.choice(RELS) if rng.random() < 0.6 else None)
+        # after node merging the graph has edges into other graphs: ask about its nodes next to those edges
+        hot = sorted(set(x[1] for ek in w.model.edges if len(set(y[0] for y in ek)) > 1 for x in ek if x[0] == g))
+        if hot and rng.random() < 0.6:
+            near = set(hot)
+            for h_ in hot:
+                near.update(k[1] for k, _ in w.model.neighbors((g, h_)) if k[0] == g)
+            near = sorted(near)
+            s.update(a=rng.choice(near), z=rng.choice(near), rel=None if rng.random() < 0.6 else s['rel'])
     elif op == 'q_hops':
         a, z = w.pick_node(rng, g), w.pick_node(rng, g)
         ks = sorted(k[1] for k in w.model.gnodes(g))
